@@ -102,7 +102,7 @@ package hcl
 //@ requires cleanName: clean(attrName)
 
 // ---- diagnostics ----
-// verif:pred hasErr(d Diagnostics) = exists j int :: 0 <= j && j < len(d) && d[j].Severity == DiagError
+// verif:pred hasErr(d Diagnostics) = exists j int :: 0 <= j && j < len(d) && d[j].Severity == 1
 // (a nil element would panic: not a precondition here, callers are not asked to prove it)
 // verif:func (Diagnostics).HasErrors
 //@ nosafety
